@@ -14,7 +14,7 @@ use crate::val::diff;
 use serde_json::json;
 
 pub fn run(ctx: &Ctx) -> i32 {
-    let n = ctx.tier.pick(4_000u64, 60_000u64);
+    let n = ctx.tier.pick(12_000u64, 100_000u64);
     let k = ctx.tier.pick(5usize, 16usize);
     let opts = ObsOpts::full();
     let sum = run_cases(ctx, n, |i| {
